@@ -37,7 +37,7 @@ TABLE = {
        "the unconditional audience check and the every-restriction shape of "
        "for_me, the recipient gate, provenance of the own endpoints and the "
        "came_from gate. The run-time cross product of message shapes is not "
-       "executed. R9: no misplaced positional argument in the response-parsing modules.",
+       "executed. R9: no misplaced positional argument in the response-parsing modules. R10: the switch that turns the solicitation/destination checks on (asynchop) is off only for SOAP and PAOS - abstractly evaluated for a binding value that is none of the named ones.",
   ref="Part 3 C05"),
  "C06": dict(
   tech="table agreement (samlp constants vs STATUSCODE2EXCEPTION), "
@@ -71,7 +71,7 @@ TABLE = {
        "that the fallthrough raises and UnknownSystemEntity is never caught, "
        "that the entity consulted is the request Issuer, that response_args "
        "uses only pick_binding's answer, and the store-side "
-       "unknown/unsupported/binding-filter logic. R5: every typed accessor of the store asks service() for the caller's binding (or the documented default) and lets its refusal propagate. R6: Server.verify_assertion_consumer_service answers True only under an equality of the requested URL/index itself with a value read from the requester's registered consumer services (no comparison of normalised or partial forms).",
+       "unknown/unsupported/binding-filter logic. R5: every typed accessor of the store asks service() for the caller's binding (or the documented default) and lets its refusal propagate. R6: Server.verify_assertion_consumer_service answers True only under an equality of the requested URL/index itself with a value read from the requester's registered consumer services (no comparison of normalised or partial forms). R5 additionally: every typed accessor asks the store for the service it is named after (helpers expanded).",
   ref="Part 3 C09"),
  "C10": dict(
   tech="dominance/flag-sensitive pipeline rule, derivation of must and "
@@ -113,7 +113,7 @@ TABLE.update({
        "constructor chain assigns every member, that the module maps agree "
        "with the classes, and that the generic reader and writer in "
        "SamlBase/ExtensionContainer use the same six channels. Equality of "
-       "arbitrary instance trees and byte stability are not decided. Writer: a declared attribute is written whenever the member is not None (the only value guard). The received attribute name / child element is looked up and stored unchanged (no re-binding of the key). E4: the foreign-content reader stores every child element as it is met, in a loop over the parsed element, unconditionally, and keeps attributes and text. E5: shared-state rule for the element engine.",
+       "arbitrary instance trees and byte stability are not decided. Writer: a declared attribute is written whenever the member is not None (the only value guard). The received attribute name / child element is looked up and stored unchanged (no re-binding of the key). E4: the foreign-content reader stores every child element as it is met, in a loop over the parsed element, unconditionally, and keeps attributes and text. E5: shared-state rule for the element engine. E6: the foreign-content writer assigns the element's own text, copies every attribute and appends every child (no streamed builder that turns text into a child's tail).",
   ref="Part 3 C12"),
  "C13": dict(
   tech="schema-table reflection + exhaustive type-name/cardinality rules, "
@@ -139,7 +139,7 @@ TABLE.update({
        "and unravel choose inverse codecs per binding, that the raw-DEFLATE "
        "encoder/decoder agree, and SOAP embedding/expected-tag/decoder "
        "coverage. Byte identity for all strings and browser parsing are not "
-       "decided. S2: no decode/packaging call modifies an object that survives the call (mutable default arguments, nested objects of module-level templates reached through shallow copies), with an embedded positive control.",
+       "decided. S2: no decode/packaging call modifies an object that survives the call (mutable default arguments, nested objects of module-level templates reached through shallow copies), with an embedded positive control. S1 additionally: the SOAP decoders look for Body/Header among the envelope's direct children only (no iter/getiterator/'//' searches).",
   ref="Part 3 C14"),
  "C15": dict(
   tech="ownership analysis of module-level object containers (attribute "
@@ -164,7 +164,7 @@ TABLE.update({
        "unknown/unsupported/binding filter, entity isolation and key-use "
        "filter, and whether every caller acts on the signature verdict. "
        "Three genuine violations are recorded as known findings. Exactness "
-       "for arbitrary federation documents is not decided. M7 (generation side of the round trip): do_key_descriptor emits one KeyDescriptor per configured certificate under the use it is configured for, unconditionally within its loop. M8: memoisation keys complete in mdstore/metadata/config; M9: no misplaced positional argument when the store is built and loaded. M10: do_endpoints publishes a configured endpoint index unchanged and uses the running counter only under a presence test (0 is a legal index). M2/M6 compare the validity tests, duplicate test and commit key with temporaries expanded.",
+       "for arbitrary federation documents is not decided. M7 (generation side of the round trip): do_key_descriptor emits one KeyDescriptor per configured certificate under the use it is configured for, unconditionally within its loop. M8: memoisation keys complete in mdstore/metadata/config; M9: no misplaced positional argument when the store is built and loaded. M10: do_endpoints publishes a configured endpoint index unchanged and uses the running counter only under a presence test (0 is a legal index). M2/M6 compare the validity tests, duplicate test and commit key with temporaries expanded. M12 (= C17.R7): a KeyDescriptor without `use` is served for every requested use.",
   ref="Part 3 C16"),
  "C17": dict(
   tech="statement-order rule in the common block, move-not-copy check, "
@@ -176,7 +176,7 @@ TABLE.update({
        "response, that decrypted assertions pass _assertion and signature "
        "checks, and whether load-time checks are repeated for decrypted "
        "assertions (one genuine violation recorded). Ciphertext contents and "
-       "key matching are not decided. R7: a KeyDescriptor without use is returned for every requested use and the encryption lookups ask for use 'encryption'; R8: the key an assertion is encrypted for derives on every call from encrypt_cert or metadata.certs(sp_entity_id) only, never from state kept on the entity. R9: in Entity._response the decision whether the advice assertion is encrypted is examined on every path to a normal return (a /repo fix: commit repaired the early return that skipped it).",
+       "key matching are not decided. R7: a KeyDescriptor without use is returned for every requested use and the encryption lookups ask for use 'encryption'; R8: the key an assertion is encrypted for derives on every call from encrypt_cert or metadata.certs(sp_entity_id) only, never from state kept on the entity. R9: in Entity._response the decision whether the advice assertion is encrypted is examined on every path to a normal return (a /repo fix: commit repaired the early return that skipped it). R4 includes: the flag that switches the decryption-time signature check off is the caller's - decrypt_assertions never rebinds it.",
   ref="Part 3 C17"),
  "C18": dict(
   tech="who-may-write ownership of the identifier map, pairing checks of "
